@@ -117,7 +117,7 @@ CHECKS = {
         "without a bearer token is not protected by one (stated: Ex.anonymous_session_is_unprotected).",
    technique="Lean 4 proof + model/implementation differential check + independent trace oracle",
    ref="DESIGN.md section 5 C11"),
- "C14": dict(engine="sig",
+ "C14": dict(engine="sig+group",
    text="Lean 4: C14_world_converges_partial on the CONCRETE executable world model (the one the differential run ties to webclient.go/group.go): an invariant WInv holds along "
         "every schedule of client messages (every join/leave with every outcome, chat, lock, kick, clearchat, …), action-loop iterations of any client and connection drops, "
         "the world never crashes, and in every quiescent world every web member's list — the protocol.js fold of the `user` messages written to it since it joined — equals the "
@@ -126,7 +126,8 @@ CHECKS = {
         "C14_world_converges_false_overtake (P17 on the world model itself), "
         "C14_converges_false_overtake (two change announcements released from detached goroutines can overtake each other: known finding P17) and "
         "C14_converges_false_ghost (the pre-fix redirect join).  The real code is tied by the differential run and by an oracle that, at every quiescent point of a "
-        "generated session, compares each real client's accumulated user list with the real group's membership",
+        "generated session, compares each real client's accumulated user list with the real group's membership; under real concurrency `convstress` (group engine) races one "
+        "leave against four joins per round on the real AddClient/DelClient and requires every member's folded list to equal the membership whenever nothing is in flight",
    note=TB + "`_partial`: the step language of the world theorem leaves out the messages that change permissions or a user's data (announced from a detached goroutine: the full "
         "statement is false for them, known finding P17, proved counterexample) and offer/record/maketoken/edittoken (unrelated to the lists; `record` because the model's "
         "fresh-id counter is not kept distinct from client-chosen ids). WInv assumes the repairs P12/P18 (in currentFixes). Delivery is modelled as a FIFO per member (unbounded "
